@@ -31,6 +31,11 @@ ROWS = {
          "DESIGN.md §3.2 Protected, §7 C20",
          "rustc is the oracle; finite table, enumerated completely; Free cells recorded, never judged",
          "TLA+ type-state table checked by TLC; generated programs judged by the compiler"),
+ "C08": ("model_checking",
+         "IncHash.tla models the buffering of blake2b update (lazy, 128) and poly1305 update (eager, 16) branch by branch; TLC checks for every reachable (absorbed, update size) that the buffered bytes are the unprocessed tail and that any chunking issues exactly the one-shot function's compress calls; every 2-way and 3-way split (empty pieces included) is replayed on all incremental interfaces against the one-shot result with the buffer fill compared to the model's table (hook H3); random k-way partitions of 4-64 KiB messages are recorded and validated by TLC; thorough adds an Apalache inductive invariant for unbounded lengths",
+         "DESIGN.md §3.2 IncHash, §7 C08",
+         "one-shot function of the same library as oracle (libsodium for ed25519ph); SHA-512 buffering lives in the sha2 crate (abstract layer only)",
+         "TLA+ spec + TLC model checking; exhaustive split replay; impl->spec trace validation"),
 }
 NOT_YET = "check not built yet (work in progress; see DESIGN.md section 7)"
 
